@@ -383,7 +383,7 @@ def build_scenario(rng, idx, quick, tls=False):
     cfg = gen_config(rng, want_aq=True if flavour in ("aqchange", "shutdown") else None, want_down=(flavour == "down"))
     if flavour == "shutdown":     # every kind of login must meet admin_only: a cleartext md5 user, a trust user, an auth_query-only user
         p0 = cfg["pools"][0]
-        free = [u for u in ("alice", "bob", "carol", "dave", "eve") if u not in {x["name"] for x in p0["users"]}]
+        free = [u for u in ("alice", "bob", "carol", "dave", "eve", "frank", "grace", "heidi") if u not in {x["name"] for x in p0["users"]}]
         p0["aq"] = True
         p0["users"] += [{"name": free[0], "pw": "clearpw", "auth": "md5"}, {"name": free[1], "pw": "tpw", "auth": "trust"}, {"name": free[2], "pw": None, "auth": "md5"}]
     allusers = sorted({u["name"] for p in cfg["pools"] for u in p["users"]})
